@@ -140,11 +140,18 @@ def scan_order():
 
 
 def nice_fraction(x):
+    """a small exact rational within 1e-13 (relative) of the float the registry holds"""
     f = Fraction(x)
+    d = Fraction(repr(float(x)))
+    if d.denominator <= 10 ** 12:
+        return d
     g = f.limit_denominator(10 ** 9)
     if g == f or (f != 0 and abs(g - f) <= abs(f) * Fraction(1, 10 ** 13)):
         return g
-    return f.limit_denominator(10 ** 18)
+    g = f.limit_denominator(10 ** 18)
+    if f != 0 and abs(g - f) <= abs(f) * Fraction(1, 10 ** 13):
+        return g
+    return f
 
 
 def pint_meaning(texts):
@@ -158,8 +165,11 @@ def pint_meaning(texts):
         try:
             q0 = ureg.Quantity(0.0, s)
             b0 = q0.to_base_units().magnitude
-            bN = ureg.Quantity(float(N), s).to_base_units().magnitude
-            out[s] = {'canon': str(q0.units), 'dim': str(q0.dimensionality), 'fac': nice_fraction((bN - b0) / N), 'off': nice_fraction(b0)}
+            if b0 == 0:
+                fac = ureg.Quantity(1.0, s).to_base_units().magnitude
+            else:   # offset unit: slope measured over a long interval so the cancellation error stays below 1e-15
+                fac = (ureg.Quantity(float(N), s).to_base_units().magnitude - b0) / N
+            out[s] = {'canon': str(q0.units), 'dim': str(q0.dimensionality), 'fac': nice_fraction(fac), 'off': nice_fraction(b0)}
             if out[s]['fac'] == 0:
                 raise ValueError('zero factor')
         except Exception:
